@@ -6,6 +6,7 @@ CONSTANTS
   Inject = "base"
   Handback = "shared_field"
   NextRun = "threaded"
+  ImportThread = "inline"
   defaultInitValue = defaultInitValue
 INVARIANT ExcIsTimeout
 INVARIANT ExcStable
